@@ -920,6 +920,8 @@ func (r *FnRun) assumeTy(st *State, v string, t types.Type) {
 // type implements the static interface type.
 func (r *FnRun) assumeIface(st *State, tag, pay string, t types.Type) {
 	st.assume(sOr(sEq(pay, "null"), sx("(_ is ibox)", pay), sAnd(sx("(_ is obj)", pay), sEq(sx("tyof", pay), sx("tagty", tag)))))
+	// a pointer-typed dynamic value is a pointer (or a typed nil), never a boxed scalar
+	st.assume(sImp(sx("ptrtag", tag), sNot(sx("(_ is ibox)", pay))))
 	it, ok := t.Underlying().(*types.Interface)
 	if !ok || it.NumMethods() == 0 {
 		return
